@@ -4,6 +4,7 @@
 package main
 
 import (
+	"bytes"
 	"context"
 	"encoding/binary"
 	"encoding/json"
@@ -22,7 +23,10 @@ import (
 	"github.com/gogo/protobuf/proto"
 	"github.com/pingcap/kvproto/pkg/metapb"
 	"github.com/pingcap/log"
+	"github.com/tikv/pd/pkg/encryption"
 	"github.com/tikv/pd/server/core"
+	"github.com/tikv/pd/server/election"
+	"github.com/tikv/pd/server/encryptionkm"
 	"github.com/tikv/pd/server/kv"
 	"go.uber.org/zap"
 
@@ -1301,7 +1305,7 @@ func main() {
 		// the two-member probe takes ~20 s of mostly waiting (cluster start, election, close): side by side with the cases
 		probeR := res.New("C17", *seed, *tier)
 		probeDone := make(chan struct{})
-		go func() { defer close(probeDone); followerBackendProbe(probeR) }()
+		go func() { defer close(probeDone); encryptedRecordsProbe(probeR, *seed); followerBackendProbe(probeR) }()
 		joinProbe = func() {
 			<-probeDone
 			for _, v := range probeR.Violations {
@@ -1309,6 +1313,7 @@ func main() {
 			}
 			R.Notes = append(R.Notes, probeR.Notes...)
 			R.Count("probe:follower-backend")
+			R.Count("probe:encrypted-records")
 		}
 		for _, c := range fixedCases() {
 			emit(runCase(c))
@@ -1390,6 +1395,172 @@ func rangeContract(R *res.Result, name string, b kv.Base, n int) {
 // followerBackendProbe: two REAL PD members. The one whose first role is follower receives regions through the region syncer
 // and saves them with its own Storage; after a Flush they must be loadable from the region backend its configuration names
 // (use-region-storage, true by default) — that is where it will load from when it restarts or is elected.
+// encryptedRecordsProbe: encryption at rest. Member A (data-encryption-method aes128-ctr) leads and saves regions through
+// the real Storage with both region backends; it reads them back. Then member B, which has no encryption configured, is
+// elected over the same etcd: as the leader it switches the current key of the shared key dictionary off and keeps the
+// old data keys (KeyManager.SetLeadership) - exactly so that the old records stay readable. Whether a record has to be
+// decrypted is a property of the record. B's full load, its single-region read and its pruning load must return every
+// region as it was saved, with either backend.
+func encryptedRecordsProbe(R *res.Result, seed uint64) {
+	R.Count("probe:encrypted-records")
+	cli, _, err := etcdSrv.NewClient()
+	if err != nil {
+		R.Notes = append(R.Notes, "encrypted-records probe skipped: "+err.Error())
+		return
+	}
+	defer cli.Close()
+	dir, err := os.MkdirTemp("", "c17enc")
+	if err != nil {
+		panic(err)
+	}
+	defer os.RemoveAll(dir)
+	keyFile := filepath.Join(dir, "key")
+	if err := os.WriteFile(keyFile, []byte("8fd7e3e917c170d92f3e51a981dd7bc8fba11f3df7d8df994842f6e86f69b530"), 0o600); err != nil {
+		panic(err)
+	}
+	member := func(name string, cfg *encryption.Config) (*encryptionkm.KeyManager, *election.Leadership, error) {
+		if err := cfg.Adjust(); err != nil {
+			return nil, nil, err
+		}
+		km, err := encryptionkm.NewKeyManager(cli, cfg)
+		if err != nil {
+			return nil, nil, err
+		}
+		l := election.NewLeadership(cli, "/c17enc/leader", name)
+		if err := l.Campaign(600, name); err != nil {
+			return nil, nil, err
+		}
+		if err := km.SetLeadership(l); err != nil {
+			return nil, nil, err
+		}
+		return km, l, nil
+	}
+	kmA, leadA, err := member("A", &encryption.Config{DataEncryptionMethod: "aes128-ctr",
+		MasterKey: encryption.MasterKeyConfig{Type: "file", MasterKeyFileConfig: encryption.MasterKeyFileConfig{FilePath: keyFile}}})
+	if err != nil {
+		R.Notes = append(R.Notes, "encrypted-records probe skipped: member A: "+err.Error())
+		return
+	}
+	if _, k, err := kmA.GetCurrentKey(); err != nil || k == nil {
+		R.Notes = append(R.Notes, "encrypted-records probe skipped: member A has no data key")
+		return
+	}
+	r := rng.New(seed ^ 0xe7c4)
+	const n = 40
+	want := map[uint64]*metapb.Region{}
+	for i := 0; i < n; i++ {
+		id := uint64(i)*7 + 3
+		want[id] = &metapb.Region{Id: id, StartKey: []byte(fmt.Sprintf("t_%05d", i*10)), EndKey: []byte(fmt.Sprintf("t_%05d", (i+1)*10)),
+			RegionEpoch: &metapb.RegionEpoch{ConfVer: uint64(1 + r.Intn(4)), Version: uint64(1 + r.Intn(5))},
+			Peers:       []*metapb.Peer{{Id: id + 1000, StoreId: 1}, {Id: id + 2000, StoreId: 2}}}
+	}
+	type backend struct {
+		name  string
+		base  kv.Base
+		rsDir string
+		useRS bool
+	}
+	backends := []backend{{"direct", kv.NewMemoryKV(), filepath.Join(dir, "rm0"), false}, {"region-storage", kv.NewMemoryKV(), filepath.Join(dir, "rm1"), true}}
+	open := func(b backend, km *encryptionkm.KeyManager) (*core.Storage, func()) {
+		ctx, cancel := context.WithCancel(context.Background())
+		rs, err := core.NewRegionStorage(ctx, b.rsDir, km)
+		if err != nil {
+			panic(err)
+		}
+		st := core.NewStorage(b.base, core.WithRegionStorage(rs), core.WithEncryptionKeyManager(km))
+		if b.useRS {
+			st.SwitchToRegionStorage()
+		}
+		return st, func() { cancel(); st.Close() }
+	}
+	same := func(a, b *metapb.Region) bool {
+		return a != nil && b != nil && bytes.Equal(a.GetStartKey(), b.GetStartKey()) && bytes.Equal(a.GetEndKey(), b.GetEndKey()) &&
+			a.GetRegionEpoch().GetConfVer() == b.GetRegionEpoch().GetConfVer() && a.GetRegionEpoch().GetVersion() == b.GetRegionEpoch().GetVersion() &&
+			len(a.GetPeers()) == len(b.GetPeers()) && b.GetEncryptionMeta() == nil
+	}
+	check := func(who string, b backend, st *core.Storage) {
+		seen := map[uint64]int{}
+		bad, first := 0, ""
+		bc := core.NewBasicCluster()
+		deleted := 0
+		err := st.LoadRegions(func(ri *core.RegionInfo) []*core.RegionInfo {
+			seen[ri.GetID()]++
+			if !same(want[ri.GetID()], ri.GetMeta()) {
+				bad++
+				if first == "" {
+					first = fmt.Sprintf("region %d saved as [%q, %q) is loaded as [%q, %q), encryption meta still set: %v", ri.GetID(),
+						want[ri.GetID()].GetStartKey(), want[ri.GetID()].GetEndKey(), ri.GetStartKey(), ri.GetEndKey(), ri.GetMeta().GetEncryptionMeta() != nil)
+				}
+			}
+			return nil
+		})
+		replay := map[string]interface{}{"probe": "encrypted-records", "backend": b.name, "loader": who, "regions": n}
+		if err != nil {
+			R.Violate("C17:load:encrypted-records-fail-to-load", fmt.Sprintf("%s backend, %s: %d regions saved under aes128-ctr, the full load fails: %v", b.name, who, n, err), replay)
+			return
+		}
+		missing, twice := 0, 0
+		for id := range want {
+			if seen[id] == 0 {
+				missing++
+			} else if seen[id] > 1 {
+				twice++
+			}
+		}
+		if bad > 0 || missing > 0 || twice > 0 {
+			R.Violate("C17:load:encrypted-record-not-returned-as-saved",
+				fmt.Sprintf("%s backend, %s: %d regions saved under aes128-ctr; the full load returned %d regions that differ from what was saved (%d missing, %d twice); %s", b.name, who, n, bad, missing, twice, first), replay)
+			return
+		}
+		got := &metapb.Region{}
+		id := uint64(3*7 + 3)
+		if ok, err := st.LoadRegion(id, got); err != nil || !ok || !same(want[id], got) {
+			R.Violate("C17:load:encrypted-record-not-returned-as-saved",
+				fmt.Sprintf("%s backend, %s: LoadRegion(%d) -> ok=%v err=%v [%q, %q), saved [%q, %q)", b.name, who, id, ok, err, got.GetStartKey(), got.GetEndKey(), want[id].GetStartKey(), want[id].GetEndKey()), replay)
+			return
+		}
+		// the pruning load: nothing overlaps, so nothing may be deleted and the cache must hold every saved region
+		err = st.LoadRegions(func(ri *core.RegionInfo) []*core.RegionInfo {
+			ov := bc.CheckAndPutRegion(ri)
+			deleted += len(ov)
+			return ov
+		})
+		if err != nil || deleted > 0 || bc.GetRegionCount() != n {
+			R.Violate("C17:prune:storage-differs-from-cache",
+				fmt.Sprintf("%s backend, %s: pruning load of %d disjoint regions saved under aes128-ctr: err=%v, %d records deleted, %d regions cached", b.name, who, n, err, deleted, bc.GetRegionCount()), replay)
+		}
+	}
+	for _, b := range backends {
+		st, closeSt := open(b, kmA)
+		for _, reg := range want {
+			if err := st.SaveRegion(proto.Clone(reg).(*metapb.Region)); err != nil {
+				panic(err)
+			}
+		}
+		if err := st.Flush(); err != nil {
+			panic(err)
+		}
+		check("member A (encryption on, wrote the records)", b, st)
+		closeSt()
+	}
+	// A steps down; B (no [security.encryption] section) is elected and takes the key dictionary over
+	leadA.Reset()
+	kmB, leadB, err := member("B", &encryption.Config{})
+	if err != nil {
+		R.Notes = append(R.Notes, "encrypted-records probe: member B: "+err.Error())
+		return
+	}
+	defer leadB.Reset()
+	if _, k, _ := kmB.GetCurrentKey(); k != nil {
+		R.Notes = append(R.Notes, "encrypted-records probe: member B still has a current key (the hand-over did not switch encryption off)")
+	}
+	for _, b := range backends {
+		st, closeSt := open(b, kmB)
+		check("member B (no encryption configured, elected after A)", b, st)
+		closeSt()
+	}
+}
+
 func followerBackendProbe(R *res.Result) {
 	R.Count("probe:follower-backend")
 	c, err := pdcluster.Start(2, nil)
